@@ -64,6 +64,7 @@ type Type struct {
 	Enc    []Op    `json:"enc"`
 	Dec    []Op    `json:"dec"`
 	Frame  *Frame  `json:"frame"`
+	Hand   bool    `json:"hand"`   // hand-written (file has no "Code generated" header)
 	Ctor   bool    `json:"ctor"`   // has NewT()
 	Codec  bool    `json:"codec"`  // implements codec.BinaryCodec (Encode returns error)
 }
@@ -115,6 +116,7 @@ type pkgInfo struct {
 	methods map[string]map[string]*ast.FuncDecl // type -> method -> decl
 	funcs   map[string]*ast.FuncDecl
 	order   []string
+	hand    map[string]bool // struct declared in a file without the "Code generated" header
 }
 
 func scalarWidth(t string) int {
@@ -148,17 +150,23 @@ func typeStr(e ast.Expr) string {
 }
 
 func loadPkg(root, short, dir string) *pkgInfo {
-	pi := &pkgInfo{short: short, structs: map[string]*ast.StructType{}, methods: map[string]map[string]*ast.FuncDecl{}, funcs: map[string]*ast.FuncDecl{}}
+	pi := &pkgInfo{short: short, structs: map[string]*ast.StructType{}, methods: map[string]map[string]*ast.FuncDecl{}, funcs: map[string]*ast.FuncDecl{}, hand: map[string]bool{}}
 	files, _ := filepath.Glob(filepath.Join(root, dir, "*.go"))
 	sort.Strings(files)
 	for _, f := range files {
 		if strings.HasSuffix(f, "_test.go") {
 			continue
 		}
-		af, err := parser.ParseFile(fset, f, nil, parser.SkipObjectResolution)
+		af, err := parser.ParseFile(fset, f, nil, parser.SkipObjectResolution|parser.ParseComments)
 		if err != nil {
 			fmt.Fprintln(os.Stderr, "parse error:", err)
 			os.Exit(2)
+		}
+		generated := false
+		for _, cg := range af.Comments {
+			if strings.Contains(cg.Text(), "Code generated") {
+				generated = true
+			}
 		}
 		for _, d := range af.Decls {
 			switch d := d.(type) {
@@ -168,6 +176,7 @@ func loadPkg(root, short, dir string) *pkgInfo {
 						if st, ok := ts.Type.(*ast.StructType); ok {
 							pi.structs[ts.Name.Name] = st
 							pi.order = append(pi.order, ts.Name.Name)
+							pi.hand[ts.Name.Name] = !generated
 						}
 					}
 				}
@@ -1201,7 +1210,7 @@ func main() {
 			if m == nil || m["Encode"] == nil || m["Decode"] == nil {
 				continue // not a codec type (e.g. helper struct)
 			}
-			t := &Type{ID: len(sc.Types), Pkg: p.short, Name: n}
+			t := &Type{ID: len(sc.Types), Pkg: p.short, Name: n, Hand: pi.hand[n]}
 			ids[p.short+"."+n] = t.ID
 			sc.Types = append(sc.Types, t)
 		}
